@@ -1,7 +1,7 @@
 """Per-property and per-suite configuration of the orchestrator."""
 
 # .vo files Extract.v depends on (built before extraction)
-EXTRACT_DEPS = ['Codec/FilterCase.vo', 'Agent/ReasmRs.vo', 'Agent/Model.vo', 'Agent/Monitors.vo', 'Codec/WireMon.vo', 'Codec/EncodeMsg.vo', 'Proofs/ArcHeapProofs.vo', 'Codec/AttrValue.vo', 'Codec/WireFull.vo', 'Codec/Message.vo', 'Codec/Keys.vo', 'Codec/Ignored.vo', 'Agent/AbsGlue.vo', 'Agent/Concrete.vo', 'Agent/RttExact.vo']
+EXTRACT_DEPS = ['Codec/FilterCase.vo', 'Agent/ReasmRs.vo', 'Agent/Model.vo', 'Agent/Monitors.vo', 'Codec/WireMon.vo', 'Codec/EncodeMsg.vo', 'Proofs/ArcHeapProofs.vo', 'Codec/AttrValue.vo', 'Codec/WireFull.vo', 'Codec/Message.vo', 'Codec/Keys.vo', 'Codec/Ignored.vo', 'Agent/AbsGlue.vo', 'Agent/Concrete.vo', 'Agent/RttExact.vo', 'Codec/ValueApi.vo']
 
 # which constant-agreement files (Proofs/<name>.v over the generated constants) belong to which property
 CONSTS = {}
@@ -15,6 +15,7 @@ for _p in ('C01', 'C02', 'C09', 'C14', 'C18', 'C19'):
     CONSTS.setdefault(_p, []).append('CodeAgreeCodec')
 for _p in ('C06', 'C11'):
     CONSTS.setdefault(_p, []).append('CodeAgreeRto')
+CONSTS.setdefault('C15', []).append('CodeAgreeRtt')
 
 SUITES = {
     'attrval': dict(bin='attrval', nontrivial=r'^C [DE] '),
@@ -27,7 +28,8 @@ SUITES = {
     'wire': dict(bin='wire', nontrivial=r'^C (F |\S+ \S{48})'),
     'encbuf': dict(bin='encbuf', nontrivial=r'^C (T |\d+ \d \S+ \d+ \S+ [pmsf])'),
     'encbuf-release': dict(bin='encbuf', driver='encbuf', release=True, nontrivial=r'^C (T |\d+ \d \S+ \d+ \S+ [pmsf])'),
-    'valueapi': dict(bin='valueapi', nontrivial=r'^C (A|S \S \S*c)'),
+    'valueapi': dict(bin='valueapi', nontrivial=r'^C (A|V|S \S \S*c)'),
+    # C V records: the RESULT of every modelled value-type function against Codec/ValueApi.v (harness/src/valuev.rs)
     'codecrt': dict(bin='codecrt', nontrivial=r'^C \d+ \d \S+ v'),
     'reasm': dict(bin='reasm', nontrivial=r'^C \d+ \S+ \S+'),
 }
@@ -111,7 +113,10 @@ PROPS = {
                      'compared with the reference-counted heap model and with value semantics; sweeps under catch_unwind of the public constructors / accessors / conversions: all u16 '
                      'for MessageType / MessageMethod / AlgorithmId / ErrorCode / turn integer types, all u8 for classes and families, ~3000 strings over ASCII, multi-byte, Unicode white space / combining / compatibility / zero-width characters, quoting, '
                      'cookie-prefix and boundary-length (507..510, 762..764, 64000, 64001) alphabets for every string constructor and key derivation; distinct = distinct records; '
-                     'non-trivial = scripts with a clone, and every API sweep; reads go through every access path (iter, slice accessor, consuming iterator over a clone); suite attrval: every public accessor of every DECODED value (valid, mutated and random wire values of all 38 kinds) and of its clone is called under catch_unwind',
+                     'non-trivial = scripts with a clone, every API sweep and every result record; reads go through every access path (iter, slice accessor, consuming iterator over a clone); '
+                     'result records (C V): the value returned by each modelled function (Codec/ValueApi.v: MessageType / MessageMethod / MessageClass / AddressFamily / AlgorithmId / ErrorCode / AttributeType / ICMP / TURN integer types over ALL u16 / u8 values in blocks of 256, '
+                     'Nonce (+ cookie accessors) / Realm / Software / Padding / UserName / UserHash / HMACKey constructors over the ~3000 sweep strings + 4000 generated strings (40000 thorough), array conversions of every length 0..39, MessageHeader, UnknownAttributes, PasswordAlgorithms) is compared with the model; '
+                     'suite attrval: every public accessor of every DECODED value (valid, mutated and random wire values of all 38 kinds) and of its clone is called under catch_unwind',
                 assumptions=['Arc is a hand-written model (reference-counted heap); documented panicking accessors (expect_*) are not called on mismatching variants']),
     'C01': dict(suites=['codecrt', 'attrval', 'wire'], monitors=['C01'],
                 rule='suite codecrt: messages of 0-12 attributes over all 35 value-carrying kinds (values from the per-kind generators: boundary lengths 0/1/508/509, all lengths mod 4, '
